@@ -164,18 +164,22 @@ def families(tier: str):
 
 def drivable():
     """can the current writer / I/O loop be stepped by this harness at all?  One message, one schedule, within a minute --
-    a writer that waits on a hand-off the harness does not stub (not the queue it replaces) would block every single run"""
+    a writer that waits on a hand-off the harness does not stub (not the queue it replaces) would block every single run.
+    Returns (why-not or None, failure of the probe run or None)."""
     try:
         with linesched.deadline(60):
             actors = make_actors(lambda: [[wpath.make_message(0)]], ["all"])
             f, _line, real = finish(actors)
-        return None if (f is None and "sent=" in real and real != "sent= crashed=0") else f"a single queued message is not written: {f or real}"
+        return None, f
     except BaseException as e:  # noqa
-        return f"{type(e).__name__}: {e}"
+        return f"{type(e).__name__}: {e}", None
 
 
 def run(res: Result, tier: str, seed: int):
-    why = drivable()
+    why, probe_fail = drivable()
+    if probe_fail is not None:
+        probe_fail["script"] = ["all"]
+        return [probe_fail], []          # (a single queued message already violates the property: that is the failing input)
     if why is not None:
         # (reported as a broken correspondence: the program the proofs are about is not the one that runs)
         return [], [{"line": "WPATH (one message, script [all])", "real": "the write path cannot be driven: " + why[:300],
@@ -259,7 +263,7 @@ def signature(f: dict):
 
 
 def search(res: Result, seed: int, broken) -> list:
-    if drivable() is not None:
+    if drivable()[0] is not None:
         return []
     r2 = Result(PROP, "thorough", seed)
     fails, _ = run(r2, "search", seed + 1)
